@@ -36,6 +36,7 @@ type replicator struct {
 	maxLagTime   time.Duration
 	lastCaughtUp time.Time
 	lastSeen     time.Time
+	lastOffset   int64 // newest offset the replica reported in its latest request
 	requests     chan replicationRequest
 	mu           sync.RWMutex
 	leader       string
@@ -51,6 +52,7 @@ func newReplicator(epoch uint64, replica string, p *partition) *replicator {
 		replica:    replica,
 		partition:  p,
 		requests:   make(chan replicationRequest, 1),
+		lastOffset: -1,
 		maxLagTime: p.srv.config.Clustering.ReplicaMaxLagTime,
 		leader:     p.srv.config.Clustering.ServerID,
 	}
@@ -84,6 +86,7 @@ func (r *replicator) start(stop <-chan struct{}) {
 
 		r.mu.Lock()
 		r.lastSeen = req.received
+		r.lastOffset = req.Offset
 		r.mu.Unlock()
 
 		// Update the ISR replica's latest offset for the partition. This is
@@ -161,6 +164,7 @@ func (r *replicator) tick(stop <-chan struct{}) {
 			now                 = time.Now()
 			lastSeenElapsed     = now.Sub(r.lastSeen)
 			lastCaughtUpElapsed = now.Sub(r.lastCaughtUp)
+			lastOffset          = r.lastOffset
 		)
 		r.mu.RUnlock()
 		outOfSync := lastSeenElapsed > r.maxLagTime || lastCaughtUpElapsed > r.maxLagTime
@@ -172,8 +176,12 @@ func (r *replicator) tick(stop <-chan struct{}) {
 				r.replica, r.partition, lastSeenElapsed, lastCaughtUpElapsed)
 
 			r.shrinkISR()
-		} else if !outOfSync && !r.partition.inISR(r.replica) {
-			// Add replica back into ISR.
+		} else if !outOfSync && !r.partition.inISR(r.replica) &&
+			lastOffset >= r.partition.log.HighWatermark() {
+			// Add replica back into ISR. Having been caught up at some point
+			// within maxLagTime is not enough for that: a member of the ISR can
+			// be elected leader, so the replica must hold everything that has
+			// been committed.
 			r.partition.srv.logger.Infof("Replica %s for partition %s caught back up with leader, "+
 				"rejoining ISR", r.replica, r.partition)
 			r.expandISR()
